@@ -80,6 +80,24 @@ def check(run):
         seen[k.v] = txt
         run.ob('Q2/operator-matches-Py-constant', 'cdata_richcompare', 'case %d (%s)' % (k.v, PY_OPS.get(k.v)),
                txt == want, tu.where(cur.ast) if cur.ast else None, 'found `%s`, want `%s`' % (txt, want))
+    # addresses are ordered as addresses: the operands of < <= > >= are pointers or unsigned integers, never a signed integer type
+    # (with a signed type every address with the top bit set -- (void *)-1 sentinels, kernel-half addresses -- sorts before all others,
+    # which disagrees with int(ffi.cast("uintptr_t", p)) and with the order of the same pointers under ==/hash as integers)
+    for x in cx.walk(rc):
+        if x.get('kind') == 'BinaryOperator' and x.get('opcode') in ('<', '<=', '>', '>=') and 'cdata' in cx.render(x):
+            tys = []
+            for o in cx.kids(x):
+                o = cx.strip(o)
+                ty = (o.get('dtype') or o.get('type') or '').strip()
+                td = tu.typedefs.get(ty)
+                seen_t = set()
+                while td is not None and ty not in seen_t:
+                    seen_t.add(ty)
+                    ty = (td.get('dtype') or td.get('type') or ty).strip()
+                    td = tu.typedefs.get(ty)
+                tys.append(ty)
+            okt = all(t.endswith('*') or t.startswith('unsigned') or t in ('size_t', 'uintptr_t', 'Py_uintptr_t') for t in tys)
+            run.ob('Q2/addresses-ordered-as-unsigned', 'cdata_richcompare', cx.render(x), okt, tu.where(x), 'operand types %s' % tys)
     run.ob('Q2/all-six-operators-handled', 'cdata_richcompare', 'switch (op)', set(seen) == set(PY_OPS), tu.where(sw[0].ast),
            'cases: %s' % sorted(seen))
     sel = [stmt_text(n.ast).replace('(', '').replace(')', '') for n in g.nodes if n.ast is not None and n.kind == 'stmt'
